@@ -4,6 +4,7 @@ import NixModel.Drive.State
 import NixModel.Drive.Index
 import NixModel.Drive.Units
 import NixModel.Drive.Region
+import NixModel.Drive.Array
 /-
   nixmodel: reads a trace (op lines with the implementation's recorded result after `=>`),
   replays each op on the Lean model, evaluates the property relations on the implementation's
@@ -28,6 +29,9 @@ def step (st : DState) (line : String) : DState × Option String :=
     | some o => (st, some o.render)
     | none =>
     match Index.handle st op args impl with
+    | some (st', o) => (st', some o.render)
+    | none =>
+    match Array.handle st op args impl with
     | some (st', o) => (st', some o.render)
     | none => (st, some Out.unknown.render)
 
